@@ -144,7 +144,7 @@ def rand_optfile(rng, with_pars=True, fcs=None, extra_families=False):
     if with_pars:
         for _ in range(rng.randint(0, 6)):
             lines.append(["var", rng.choice(["D0_radius", "sA", "s0_prod", "s0_scatt", "sA_0", "IS_p1_pipi", "f_scatt0", "myPar::x"]),
-                          fixflag(rng), rng.choice(NUMS), rng.choice(["0", "0.01"])])
+                          fixflag(rng), rng.choice(NUMS + ["1019.461", "0.12345678"]), rng.choice(["0", "0.01", "0.001234567"])])
         for _ in range(rng.randint(0, 4)):
             lines.append(["const", rng.choice(["a(1)(1260)+::Spline::Min", "a(1)(1260)+::Spline::Max", "a(1)(1260)+::Spline::N", "someConst"]),
                           rng.choice(["0.18412", "1.9", "40", "3"])])
